@@ -1,18 +1,33 @@
 #!/bin/sh
-# Applies every seeded change to /repo in turn, runs the quick check of the property it breaks,
-# reverts, and prints one line per seed. Must be run with /repo clean.
+# Applies every seeded change to /repo in turn, runs the quick tier of the checks named in the
+# seed's meta.json (caught_by; falls back to the property it breaks) until one reports a
+# violation, reverts, and prints one line per seed. /repo must be clean and NO other check may
+# run at the same time (the checks read /repo's working tree).
 cd /verif
 for d in seeded/*/; do
   name=$(basename $d)
-  prop=$(python3 -c "import json;print(json.load(open('$d/meta.json'))['property_broken'])")
+  [ -f $d/meta.json ] || continue
+  checks=$(python3 -c "
+import json,re
+m=json.load(open('$d/meta.json'))
+ids=[]
+for c in m.get('caught_by',[]):
+    for x in re.findall(r'C\d\d', c.split(' ')[0]):
+        if x not in ids: ids.append(x)
+if not ids: ids=[m['property_broken']]
+print(' '.join(ids))")
   git -C /repo diff --quiet || { echo "repo dirty"; exit 2; }
   git -C /repo apply $d/patch.diff || { echo "$name: patch does not apply"; continue; }
-  s=$(date +%s)
-  out=$(timeout 2400 ./bin/gv check $prop --tier quick 2>/dev/null | grep -v "^\[")
-  code=$?
-  e=$(date +%s)
+  res=""
+  for prop in $checks; do
+    s=$(date +%s)
+    out=$(timeout 2400 ./bin/gv check $prop --tier quick 2>/dev/null | grep -v "^\[")
+    e=$(date +%s)
+    nv=$(echo "$out" | grep -c "^VIOLATION")
+    ni=$(echo "$out" | grep -c "^INCONCLUSIVE")
+    res="$res $prop:violations=$nv,inconclusive=$ni,$((e-s))s"
+    [ "$nv" -gt 0 ] && break
+  done
   git -C /repo checkout -- .
-  nv=$(echo "$out" | grep -c "^VIOLATION")
-  ni=$(echo "$out" | grep -c "^INCONCLUSIVE")
-  echo "$name: check=$prop violations=$nv inconclusive=$ni time=$((e-s))s first: $(echo "$out" | grep -A1 '^VIOLATION' | sed -n 2p | cut -c1-120)"
+  echo "$name:$res"
 done
